@@ -77,12 +77,19 @@ def _work_object(task):
                 key = 'unrepresentable-value:' + name
                 msg = msg + ' (the object carries a value the text spelling cannot represent)'
             out.append((key, msg, case))
+    n = 1
     if 'C05' in want:
         for key, msg in evaluate(cls, data, ('C05',), False):
             if ambiguous:
                 key = 'unrepresentable-value:' + name
             out.append((key, msg, case))
-    return out, 1
+        if not ambiguous:
+            for m in text_mutations(data, 'quick'):
+                n += 1
+                mcase = {'kind': 'corpus', 'cls': cls_path, 'data': hx(m), 'want': ['C05']}
+                for key, msg in evaluate(cls, m, ('C05',), False):
+                    out.append((key, msg, mcase))
+    return out, n
 
 
 def _work(task):
@@ -101,7 +108,14 @@ def run(run, want, tier):
     import multiprocessing
     import os
     import random
-    pairs = corpus.harvest()
+    pairs = list(corpus.harvest())
+    try:
+        from harness import gen_extra
+        extra = gen_extra.pairs(random.Random(20260928) if tier == 'quick' else run.rng, tier)
+        pairs += extra
+        run.count('corpus', 'extra_inputs', len(extra))
+    except ImportError:
+        pass
     n_mut = {'quick': 6, 'thorough': 60}[tier]
     # Most of these ~390 classes are outside the Lean model and several still have recorded defects on
     # malformed input; the quick tier therefore mutates with a FIXED stream (the same inputs on every run and
@@ -122,6 +136,8 @@ def run(run, want, tier):
             muts = clsrun.mutations(rng, data, n_mut)
             if 'C02' in want or 'C03' in want:
                 muts = muts + structured_mutations(data, tier)
+            if 'C02' in want or 'C05' in want:
+                muts = muts + text_mutations(data, tier)
         tasks.append((corpus.class_path(cls), data, tuple(want), name in FRAMING_NAMES, muts))
     otasks = []
     if 'C01' in want or 'C05' in want:
@@ -145,6 +161,29 @@ def run(run, want, tier):
     run.count('corpus', 'workers', workers)
     run.notes.append('corpus: {} accepted inputs of {} classes harvested from the repository test-suite at run time, '
                      'evaluated on the implementation only (classes outside the Lean model)'.format(len(pairs), len(classes)))
+
+
+def text_mutations(data, tier):
+    """for text classes (printable ASCII): values made to END in a character that is also syntax - '=', ':', ',', ';',
+    a blank, a quote - at the end of the input and in front of the first separators; independent of compose(), so a
+    composer that trims or splits such a value is seen by the parse/compose/parse oracle"""
+    if not data or len(data) > 4000 or any(b < 0x20 and b not in (0x09, 0x0d, 0x0a) or b > 0x7e for b in data):
+        return []
+    out = []
+    tails = (b'=', b':', b'==', b'/', b'.', b'-', b'/0', b'/0/0', b'//0', b'0', b' 0')
+    for t in tails:
+        out.append(data + t)
+    limit = 4 if tier == 'quick' else 12
+    for sep in (b';', b',', b' ', b'\r\n'):
+        start = 0
+        for _ in range(limit):
+            i = data.find(sep, start)
+            if i < 0:
+                break
+            for t in (b'=', b':'):
+                out.append(data[:i] + t + data[i:])
+            start = i + len(sep)
+    return out
 
 
 def structured_mutations(data, tier):
